@@ -1212,3 +1212,88 @@ Proof.
   split; [|split; [exists 0; reflexivity | split; reflexivity]].
   intros p Hin. cbn in Hin. repeat (destruct Hin as [Hin|Hin]; [discriminate Hin|]). exact Hin.
 Qed.
+
+(* ------------------------------------------------------------------ the clean-up in a semaphore's lock directory *)
+
+(* a clean-up pass over a directory of semaphore slot files changes nothing but the control state of the clean-up process *)
+Lemma inv_step_clean_sem chk cfg s p o s' r e :
+  Inv chk cfg s -> step_clean_sem cfg s p o = Some (s', r, e) -> Inv chk cfg s'.
+Proof.
+  intros HI H. unfold step_clean_sem in H.
+  destruct (st_pc (ps s p)) eqn:Hpc; destruct o; try discriminate H; inversion H; subst; clear H.
+  all: inst HI p; rw; red_state; selfinst.
+  all: constructor; unfold holds; intros; red_state; brk; red_state; rw; red_state.
+  all: easy_fin HI.
+  all: sat HI; dis; easy_fin HI.
+Qed.
+
+Lemma inv_steps chk cfg s p o s' r e :
+  safe chk cfg -> Inv chk cfg s -> steps chk cfg s p o = Some (s', r, e) -> Inv chk cfg s'.
+Proof.
+  intros HS HI H. unfold steps in H. destruct (is_clean (cfg p)).
+  - eapply inv_step_clean_sem; eassumption.
+  - destruct o; first [eapply inv_step_fault; eassumption | eapply inv_step; eassumption].
+Qed.
+
+Lemma inv_runs chk cfg : safe chk cfg -> forall l s0 s,
+  Inv chk cfg s0 -> runs chk cfg s0 l = Some s -> Inv chk cfg s.
+Proof.
+  intros HS. induction l as [|[p o] l IH]; intros s0 s H0 Hr; cbn [runs] in Hr.
+  - injection Hr as <-. exact H0.
+  - destruct (steps chk cfg s0 p o) as [[[s1 r1] e1]|] eqn:E; [|discriminate].
+    eapply IH; [|exact Hr]. eapply inv_steps; eassumption.
+Qed.
+
+(* semaphore users, the clean-up of the shared lock directory and any number of faults, every schedule (no side
+   condition: the clean-up never reaches an unlink there): at most n inside *)
+Lemma bounded_sem_dir_lemma : forall cfg n l s pids,
+  (forall p, nslots (cfg p) <= n) -> runs true cfg init l = Some s ->
+  NoDup pids -> (forall p, In p pids -> inside s p) -> length pids <= n.
+Proof.
+  intros cfg n l s pids Hn Hr. eapply bounded_inv; [|exact Hn].
+  eapply inv_runs; [left; reflexivity | apply inv_init | exact Hr].
+Qed.
+
+(* ... and no step of such a system ever removes the name of a slot file *)
+Lemma sem_dir_paths_stay_lemma : forall cfg s p o s' r e k i,
+  (forall q, removes (cfg q) = false) ->
+  steps true cfg s p o = Some (s', r, e) -> path s k = Some i -> path s' k = Some i.
+Proof.
+  intros cfg s p o s' r e k i Hk H Hp. unfold steps in H. destruct (is_clean (cfg p)) eqn:Hc.
+  - unfold step_clean_sem in H.
+    destruct (st_pc (ps s p)); destruct o; try discriminate H; inversion H; subst; exact Hp.
+  - pose proof (Hk p) as Hrm.
+    assert (HF : forall o', step_fault cfg s p o' = Some (s', r, e) -> path s' k = Some i).
+    { intros o' HFa. unfold step_fault in HFa.
+      destruct (st_pc (ps s p)); destruct o'; try discriminate HFa.
+      - inversion HFa; subst; exact Hp.
+      - rewrite Hrm in HFa. discriminate HFa. }
+    destruct o; try (apply (HF _ H)).
+    all: unfold step in H; rewrite ?Hrm in H.
+    all: destruct (st_pc (ps s p)) eqn:Hpc; try discriminate H.
+    all: repeat match type of H with
+         | context[match ?x with _ => _ end] => destruct x eqn:?
+         end; try discriminate H; inversion H; subst; clear H; cbn [path set_pc set_p set_owner set_path bump succeed] in *.
+    all: try match goal with Hs : succeed _ _ _ _ = (_, _) |- _ =>
+           unfold succeed in Hs; destruct (st_zomb _) in Hs; inversion Hs; subst; clear Hs;
+           cbn [path set_pc set_p set_owner set_path bump] end.
+    all: try exact Hp.
+    all: try (unfold upd; destruct (Nat.eqb k (a_k a)) eqn:Ek; [apply Nat.eqb_eq in Ek; subst; congruence | exact Hp]).
+Qed.
+
+(* non-vacuity: two holders of a 2-slot semaphore, an old clean-up pass, a third contender is refused on both files *)
+Definition sem_dir_cfg : pid -> pconf :=
+  fun p => match p with 2 => mk_pconf KClean 10 | _ => mk_pconf (KSem 2) 0 end.
+Definition sem_dir_schedule : list label :=
+  [ (0, OTime 0); (0, ORand 0); (0, OOpen); (0, OFlock); (0, OStat);
+    (1, OTime 0); (1, ORand 1); (1, OOpen); (1, OFlock); (1, OStat);
+    (2, OTime 100); (2, OList);
+    (3, OTime 100); (3, ORand 0); (3, OOpen); (3, OFlock); (3, OClose); (3, OOpen); (3, OFlock); (3, OClose); (3, OTime 100) ].
+Example sem_dir_nonvacuous :
+  exists s, runs true sem_dir_cfg init sem_dir_schedule = Some s /\ inside s 0 /\ inside s 1 /\ st_pc (ps s 2) = Idle /\ st_pc (ps s 3) = Idle /\ path s 0 = Some 0 /\ path s 1 = Some 1.
+Proof.
+  destruct (runs true sem_dir_cfg init sem_dir_schedule) as [s|] eqn:E; [|vm_compute in E; discriminate].
+  exists s. vm_compute in E. injection E as E. subst s.
+  split; [reflexivity|]. split; [exists 0, 0; reflexivity|]. split; [exists 1, 1; reflexivity|]. repeat split.
+Qed.
+
